@@ -54,6 +54,15 @@ def classify_pair(P, Q):
     return [(t, u) for t, u, _ in xs]
 
 
+def shallow(P, Q, t, u):
+    """K11 classifier: crossing angle below 12 degrees"""
+    da, db = cr.dbez(P, t), cr.dbez(Q, u)
+    na, nb = math.hypot(*da), math.hypot(*db)
+    if na == 0 or nb == 0:
+        return False
+    return math.degrees(math.asin(min(1.0, abs(da[0] * db[1] - da[1] * db[0]) / (na * nb)))) < 12.0
+
+
 def thin_top(P, Q):
     """K3 classifier: both operands' top-level bounding boxes have area < 1e-3"""
     A, B = oc.mkseg(P), oc.mkseg(Q)
@@ -88,6 +97,8 @@ def check_pair(P, Q):
         for t, u in ref:
             c = cr.bez(P, t)
             if not any(math.hypot(c[0] - i.point.x, c[1] - i.point.y) <= tol for i in res):
+                if shallow(P, Q, t, u) and any(math.hypot(c[0] - i.point.x, c[1] - i.point.y) <= 2.5 * tol for i in res):
+                    return "K11"
                 return "%s: the crossing at (t,u) = (%r, %r), point %r, is not reported (%d report(s))" % (which, t, u, c, len(res))
     pa = [(i.point.x, i.point.y) for i in ab]
     pb = [(i.point.x, i.point.y) for i in ba]
@@ -331,7 +342,7 @@ def search(ctx, budget):
             nontriv += 1
         if msg:
             viol.append({"what": msg, "kind": kind, "input": inp})
-            if len([v for v in viol if v["what"] != "K3"]) >= 5:
+            if len([v for v in viol if v["what"] not in ("K3", "K11")]) >= 5:
                 break
         if len(samples) < 3:
             samples.append(inp)
@@ -339,7 +350,7 @@ def search(ctx, budget):
 
 
 def classify(v, entry):
-    return entry["id"] == "K3" and v.get("what") == "K3"
+    return entry["id"] in ("K3", "K11") and v.get("what") == entry["id"]
 
 
 def replay(v):
